@@ -39,6 +39,10 @@ mod lmdb;
 pub use lmdb::IndexStats;
 use lmdb::Lmdb;
 
+/// Verification hooks (named kill/yield points)
+#[cfg(feature = "verif")]
+pub mod verif;
+
 pub use heed;
 
 use crate::heed::types::Bytes;
@@ -84,6 +88,8 @@ impl Store {
 
         // Create the directory if it doesn't exist, ignoring errors
         let _ = fs::create_dir(&dir);
+        #[cfg(feature = "verif")]
+        crate::verif::point("new.dir");
 
         let mut events_path = dir.clone();
         events_path.push("event.map");
@@ -93,9 +99,15 @@ impl Store {
 
         // Create the lmdb subdir if it doesn't exist, ignoring errors
         let _ = fs::create_dir(&indexes_path);
+        #[cfg(feature = "verif")]
+        crate::verif::point("new.lmdbdir");
 
         let events = EventStore::new(&events_path)?;
+        #[cfg(feature = "verif")]
+        crate::verif::point("new.events");
         let indexes = Lmdb::new(&indexes_path, &extra_table_names)?;
+        #[cfg(feature = "verif")]
+        crate::verif::point("new.lmdb");
 
         Ok(Store {
             events,
@@ -285,7 +297,11 @@ impl Store {
     pub fn store_event(&self, event: &Event) -> Result<u64, Error> {
         // TBD: should we validate the event?
 
+        #[cfg(feature = "verif")]
+        crate::verif::point("store.enter");
         let mut txn = self.indexes.write_txn()?;
+        #[cfg(feature = "verif")]
+        crate::verif::point("store.txn");
 
         // Return Duplicate if it already exists
         if self.indexes.get_offset_by_id(&txn, event.id())?.is_some() {
@@ -332,6 +348,9 @@ impl Store {
             }
         }
 
+        #[cfg(feature = "verif")]
+        crate::verif::point("store.checked");
+
         // Pre-remove replaceable events being replaced
         {
             if event.kind().is_replaceable() {
@@ -377,26 +396,40 @@ impl Store {
             }
         }
 
+        #[cfg(feature = "verif")]
+        crate::verif::point("store.preremoved");
+
         // Store the event
         let offset = self.events.store_event(event)? as u64;
+        #[cfg(feature = "verif")]
+        crate::verif::point("store.appended");
 
         // Index the event
         if !event.kind().is_ephemeral() {
             self.indexes.index(&mut txn, event, offset)?;
         }
 
+        #[cfg(feature = "verif")]
+        crate::verif::point("store.indexed");
+
         // Handle deletion events
         if event.kind() == 5.into() {
             self.handle_deletion_event(&mut txn, event)?;
         }
 
+        #[cfg(feature = "verif")]
+        crate::verif::point("store.precommit");
         txn.commit()?;
+        #[cfg(feature = "verif")]
+        crate::verif::point("store.committed");
 
         Ok(offset)
     }
 
     fn handle_deletion_event(&self, txn: &mut RwTxn<'_>, event: &Event) -> Result<(), Error> {
         for mut tag in event.tags()?.iter() {
+            #[cfg(feature = "verif")]
+            crate::verif::point("store.deltag");
             if let Some(tagname) = tag.next() {
                 if tagname == b"e" {
                     if let Some(id_hex) = tag.next() {
@@ -458,6 +491,8 @@ impl Store {
 
     /// Get an event by Id
     pub fn get_event_by_id(&self, id: Id) -> Result<Option<&Event>, Error> {
+        #[cfg(feature = "verif")]
+        crate::verif::point("get.enter");
         let txn = self.indexes.read_txn()?;
         if let Some(offset) = self.indexes.get_offset_by_id(&txn, id)? {
             unsafe { Some(self.events.get_event_by_offset(offset as usize)).transpose() }
@@ -468,6 +503,8 @@ impl Store {
 
     /// Do we have an event
     pub fn has_event(&self, id: Id) -> Result<bool, Error> {
+        #[cfg(feature = "verif")]
+        crate::verif::point("has.enter");
         let txn = self.indexes.read_txn()?;
         Ok(self.indexes.get_offset_by_id(&txn, id)?.is_some())
     }
@@ -509,6 +546,8 @@ impl Store {
         };
 
         let txn = self.indexes.read_txn()?;
+        #[cfg(feature = "verif")]
+        crate::verif::point("find.txn");
 
         // We insert into a BTreeSet to keep them time-ordered
         let mut output: BTreeSet<&Event> = BTreeSet::new();
@@ -534,6 +573,8 @@ impl Store {
 
             for author in filter.authors() {
                 for kind in filter.kinds() {
+                    #[cfg(feature = "verif")]
+                    crate::verif::point("find.range");
                     let iter = self
                         .indexes
                         .akc_iter(author, kind, since, filter.until(), &txn)?;
@@ -590,6 +631,8 @@ impl Store {
                 for mut tag in tags.iter() {
                     if let Some(tag0) = tag.next() {
                         if let Some(tagvalue) = tag.next() {
+                            #[cfg(feature = "verif")]
+                            crate::verif::point("find.range");
                             let iter = self.indexes.atc_iter(
                                 author,
                                 tag0[0],
@@ -645,6 +688,8 @@ impl Store {
                 for mut tag in tags.iter() {
                     if let Some(tag0) = tag.next() {
                         if let Some(tagvalue) = tag.next() {
+                            #[cfg(feature = "verif")]
+                            crate::verif::point("find.range");
                             let iter = self.indexes.ktc_iter(
                                 kind,
                                 tag0[0],
@@ -699,6 +744,8 @@ impl Store {
             for mut tag in tags.iter() {
                 if let Some(tag0) = tag.next() {
                     if let Some(tagvalue) = tag.next() {
+                        #[cfg(feature = "verif")]
+                        crate::verif::point("find.range");
                         let iter =
                             self.indexes
                                 .tc_iter(tag0[0], tagvalue, since, filter.until(), &txn)?;
@@ -738,6 +785,8 @@ impl Store {
             let mut since = filter.since();
 
             for author in filter.authors() {
+                #[cfg(feature = "verif")]
+                crate::verif::point("find.range");
                 let iter = self.indexes.ac_iter(author, since, filter.until(), &txn)?;
 
                 let mut rangecount = 0;
@@ -779,6 +828,8 @@ impl Store {
 
             // This is INEFFICIENT as it scans through many events
 
+            #[cfg(feature = "verif")]
+            crate::verif::point("find.range");
             let iter = self.indexes.ci_iter(filter.since(), filter.until(), &txn)?;
             for result in iter {
                 if output.len() >= filter.limit() as usize {
@@ -914,9 +965,17 @@ impl Store {
 
     /// This removes an event without marking it as having been deleted by another event
     pub fn remove_event(&self, id: Id) -> Result<(), Error> {
+        #[cfg(feature = "verif")]
+        crate::verif::point("remove.enter");
         let mut txn = self.indexes.write_txn()?;
+        #[cfg(feature = "verif")]
+        crate::verif::point("remove.txn");
         self.remove_by_id(&mut txn, id)?;
+        #[cfg(feature = "verif")]
+        crate::verif::point("remove.deindexed");
         txn.commit()?;
+        #[cfg(feature = "verif")]
+        crate::verif::point("remove.committed");
         Ok(())
     }
 
@@ -1015,6 +1074,9 @@ impl Store {
         for event in authored_events.iter() {
             self.remove_event(event.id())?;
         }
+
+        #[cfg(feature = "verif")]
+        crate::verif::point("vanish.phase2");
 
         // delete giftwraps that p-tag this pubkey
         let tags = OwnedTags::new(&[vec!["p", &event.pubkey().as_hex_string()]])?;
